@@ -319,8 +319,17 @@ def cpEff (p : Par α) (w : α) : α :=
   p.cp_s * p.solid_fraction + p.cp_i * w + p.cp_w * (one - p.solid_fraction - w)
 def kEff (p : Par α) (w : α) : α := p.lambda_i * w + p.lambda_w * (one - w)
 def betaOf (p : Par α) (cp : α) : α := p.Dh * p.k_f * p.mass_solute / (p.M_s * p.rho_l * p.V * cp)
+/-- a boolean mask as the number numpy multiplies with (`True → 1`, `False → 0`) -/
+@[inline] def mnum (b : Bool) : α := if b then one else zero
+
+/-- `BETA = np.ones(...) * LCS_i_r + (1 + beta/(T_k - T_m)**2) * LCS_i` — the mask is MULTIPLIED in,
+as in the code: at a node that is not supercooled and sits exactly at `T_m` (`T_k - T_m = 0`)
+IEEE arithmetic gives `inf * 0 = NaN` (the real code then fails with "Solidification is not
+completed", e.g. for a cooling start equal to `T_eq` in a tall vial); over ℝ (`x/0 = 0`) the
+value is 1.  No theorem relies on that: the solidification-stage theorems take `BETA` as an
+arbitrary non-zero field. -/
 def BETAof (p : Par α) (Tm : α) (supercooled : Bool) (cp T : α) : α :=
-  if supercooled then one + betaOf p cp / ((T - Tm) * (T - Tm)) else one
+  one * mnum (!supercooled) + (one + betaOf p cp / ((T - Tm) * (T - Tm))) * mnum supercooled
 
 /-- The solidification-stage step (l.1426-1711). `mask` is `LCS_i` as left by the
 previous step (or by the nucleation stage). -/
@@ -355,7 +364,9 @@ def iceMass (p : Par α) (Tm T : α) : α :=
 /-- `w_i_new` after a solidification step -/
 def iceFrac (c : Ctx α) (T : Array α) : Array α :=
   T.map fun t =>
-    (if t < c.TeqL then iceMass c.p c.Tm t else zero) / (c.p.mass_water + c.p.mass_solute)
+    -- `m_ice = zeros * LCS_i_r + (m_w - m_s (k_f/M_s)/(T_m - T)) * LCS_i` (mask multiplied in: NaN at T = T_m in IEEE)
+    (zero * mnum (!decide (t < c.TeqL)) + iceMass c.p c.Tm t * mnum (decide (t < c.TeqL)))
+      / (c.p.mass_water + c.p.mass_solute)
 
 def minA (A : Array α) : α := A.foldl (fun m x => Num.min m x) (rd1 A 0)
 def maxA (A : Array α) : α := A.foldl (fun m x => Num.max m x) (rd1 A 0)
